@@ -211,17 +211,26 @@ function obs(st) {
 var st;
 """ % {"per": PER_OBJECT, "glob": N_GLOBAL}
 
-STEP = 'try { st = rd(%s) } catch (ex) { st = "throw:" + ex.name }\n__out(obs(st));\n'
+STEP_OBS = 'try { st = rd(%s) } catch (ex) { st = "throw:" + ex.name }\n__out(obs(st));\n'
+STEP_SILENT = 'try { st = rd(%s) } catch (ex) { st = "throw:" + ex.name }\n'
 
 SEP = " ;; "
+EMPTY = "(empty history)"
 
 
-def program(history):
-    return PROLOGUE + "".join(STEP % s for s in history) + "0"
+def program(history, every=True):
+    """every=True : log the initial observation and one observation after every statement.
+    every=False: log only the observation after the LAST statement (the new transition of a BFS
+    path whose prefixes are explored as cases of their own)."""
+    if every:
+        body = '__out(obs("init"));\n' + "".join(STEP_OBS % s for s in history)
+    else:
+        body = "".join(STEP_SILENT % s for s in history[:-1]) + STEP_OBS % history[-1]
+    return PROLOGUE + body + "0"
 
 
-def case(history, tl=30):
-    return (SEP.join(history) if history else "(empty history)", {"src": program(history), "tl": tl, "h": list(history)})
+def case_id(history):
+    return SEP.join(history) if history else EMPTY
 
 
 def product(alpha, depth):
@@ -238,40 +247,14 @@ def upto(alpha, depth):
     return out
 
 
-def split_vectors(outcome):
-    """outcome string -> (list of per-step vectors (each a list of serialised probes), tail)."""
+def vectors(outcome):
+    """outcome string -> (list of vectors, each a list of serialised probes; tail).
+    No probe value contains ',' ';' '[' or ']' (joins use '.'), so plain splitting is exact."""
     log, _, tail = outcome.rpartition("|")
     vecs = []
-    for ent in split_top(log, ";"):
+    for ent in log.split(";"):
         if ent.startswith("[") and ent.endswith("]"):
-            vecs.append(split_top(ent[1:-1], ","))
+            vecs.append(ent[1:-1].split(","))
         elif ent:
             vecs.append([ent])
     return vecs, tail
-
-
-def split_top(s, sep):
-    """Split a serialised log on `sep` outside string literals and brackets."""
-    out, cur, depth, i, n = [], [], 0, 0, len(s)
-    while i < n:
-        c = s[i]
-        if c == '"':
-            j = i + 1
-            while j < n and s[j] != '"':
-                j += 2 if s[j] == "\\" else 1
-            cur.append(s[i:j + 1])
-            i = j + 1
-            continue
-        if c in "[{":
-            depth += 1
-        elif c in "]}":
-            depth -= 1
-        if c == sep and depth == 0:
-            out.append("".join(cur))
-            cur = []
-        else:
-            cur.append(c)
-        i += 1
-    if cur or out:
-        out.append("".join(cur))
-    return out
